@@ -14,9 +14,11 @@ import time
 
 import dbus
 
-from . import boot, simloop, simnet, tcpcl_world as tw, bp_world as bw, ref9174 as r74
+from . import boot, simloop, simnet, simudp, tcpcl_world as tw, bp_world as bw, ref9174 as r74
 
 boot.tcpcl()
+uagent = simudp.install()
+import udpcl.config  # noqa: E402
 import tcpcl.agent  # noqa: E402
 import bp.agent  # noqa: E402
 import bp.cla  # noqa: E402
@@ -44,8 +46,8 @@ class _HostSockets(object):
 
 
 class Host(object):
-    def __init__(self, world, index, routes, rx_routes, tcpcl_kwargs=None):
-        ''' routes: [(regex, next_node_index)] ; rx_routes: [(regex, action)] '''
+    def __init__(self, world, index, routes, rx_routes, tcpcl_kwargs=None, udpcl_mtu=None):
+        ''' routes: [(regex, next_node_index[, cl_type[, route mtu]])] ; rx_routes: [(regex, action)] '''
         self.world = world
         self.index = index
         self.node_id = 'dtn://n%d/' % index
@@ -62,18 +64,43 @@ class Host(object):
         with simloop.entered(self.tctx):
             self.tcpcl = tcpcl.agent.Agent(self.tcfg)
             self.tcpcl.listen(self.address, PORT)
+        # the UDPCL agent process of the node
+        self.udpcl_service = 'org.verif.n%d.udpcl' % index
+        self.uctx = simloop.Context('n%d-udpcl' % index)
+        world.host_of[self.uctx] = self
+        simudp.NET.ctx_hosts[self.uctx] = (self.address, 'n%d' % index)
+        self.ucfg = udpcl.config.Config(node_id=self.node_id, mtu_default=udpcl_mtu, bus_service=self.udpcl_service)
+        with simloop.entered(self.uctx):
+            self.udpcl = uagent.Agent(self.ucfg)
+            self.udpcl.listen(self.address, PORT, {})
         cfg = bp.config.Config(node_id=self.node_id, bus_service=self.bp_service)
         for pat, action in rx_routes:
             cfg.rx_route_table.append(bp.config.RxRouteItem(eid_pattern=re.compile(pat), action=action))
-        for pat, nxt in routes:
+        for route in routes:
+            pat, nxt = route[0], route[1]
+            cl_type = route[2] if len(route) > 2 else 'tcpcl'
+            mtu = route[3] if len(route) > 3 else None
+            raw = dict(address='10.0.0.%d' % nxt, port=PORT)
+            if cl_type == 'tcpcl':
+                raw['next_nodeid'] = 'dtn://n%d/' % nxt
             cfg.tx_route_table.append(bp.config.TxRouteItem(
-                eid_pattern=re.compile(pat), next_nodeid='dtn://n%d/' % nxt, cl_type='tcpcl',
-                raw_config=dict(next_nodeid='dtn://n%d/' % nxt, address='10.0.0.%d' % nxt, port=PORT)))
+                eid_pattern=re.compile(pat), next_nodeid='dtn://n%d/' % nxt, cl_type=cl_type, mtu=mtu, raw_config=raw))
         self.bcfg = cfg
         with simloop.entered(self.bctx):
             self.bp = bp.agent.Agent(cfg)
             self.bp.cl_attach('tcpcl', self.tcpcl_service)
+            self.bp.cl_attach('udpcl', self.udpcl_service)
         self.send_errors = []
+        # what the adaptors hand to the BP agent (instance wrappers: harness-side observation)
+        self.handed = []
+        for cltype in ('tcpcl', 'udpcl'):
+            adaptor = self.bp._cl_agent[cltype]
+            real = adaptor.recv_bundle_finish
+
+            def finish(data, metadata, _real=real, _cl=cltype):
+                self.handed.append((_cl, bytes(data)))
+                return _real(data, metadata)
+            adaptor.recv_bundle_finish = finish
 
     @property
     def adaptor(self):
@@ -100,14 +127,15 @@ class Host(object):
         return out
 
     def escapes(self):
-        return list(self.tctx.escapes) + list(self.bctx.escapes)
+        return list(self.tctx.escapes) + list(self.bctx.escapes) + list(self.uctx.escapes)
 
 
 class StackWorld(object):
-    def __init__(self, specs, tcpcl_kwargs=None):
+    def __init__(self, specs, tcpcl_kwargs=None, udpcl_mtu=None):
         ''' specs: per host (index from 1) dict(routes=[(regex, next index)], rx_routes=[(regex, action)]) '''
         bw.reset()
         dbus.RECORDER.reset()
+        simudp.NET.reset()
         self.net = simnet.Network()
         self.host_of = {}
         self._real_socket = tcpcl.agent.socket
@@ -117,7 +145,7 @@ class StackWorld(object):
         self.hosts = {}
         try:
             for index, spec in enumerate(specs, 1):
-                self.hosts[index] = Host(self, index, spec.get('routes', ()), spec.get('rx_routes', ()), tcpcl_kwargs)
+                self.hosts[index] = Host(self, index, spec.get('routes', ()), spec.get('rx_routes', ()), tcpcl_kwargs, udpcl_mtu)
         except Exception:
             self.close()
             raise
@@ -129,20 +157,40 @@ class StackWorld(object):
     def contexts(self):
         for host in self.hosts.values():
             yield host.tctx
+            yield host.uctx
             yield host.bctx
 
     def pump(self, rounds=2000):
         ''' Run network and processes until nothing moves.  :return: True if quiescent. '''
         for _ in range(rounds):
             moved = self.net.pump()
+            while simudp.NET.inflight:
+                simudp.NET.deliver(simudp.NET.inflight.pop(0))
+                moved = True
             for ctx in self.contexts():
                 for _i in range(50):
                     if not ctx.iterate():
                         break
                     moved = True
             if not moved:
-                return True
+                # a UDPCL agent paces its datagrams with a timer: let time pass while one still has something to send
+                due = self._udpcl_busy_due()
+                if due is None:
+                    return True
+                simloop.advance_to(max(due, simloop.CLOCK.now_ms))
         return False
+
+    def _udpcl_busy_due(self):
+        dues = []
+        for host in self.hosts.values():
+            agent = host.udpcl
+            busy = bool(agent._tx_queue)
+            for wait in agent._send_wait.values():
+                if wait.cur_item is not None or wait.tx_item_queue or wait.pri_item_queue or wait.cur_dgram is not None:
+                    busy = True
+            if busy and host.uctx.next_due() is not None:
+                dues.append(host.uctx.next_due())
+        return min(dues) if dues else None
 
     def advance(self, ms):
         ''' Let virtual time pass, firing timers in order. '''
@@ -180,6 +228,32 @@ class StackWorld(object):
                         del cur[msg['id']]
                 for tid, buf in cur.items():
                     out.append(dict(src=by_addr.get(src), dst=by_addr.get(dst), link=num, data=bytes(buf), complete=False, id=tid))
+        return out
+
+    def udp_bundles(self):
+        ''' Every bundle carried by UDPCL, from the datagrams sent (whole-bundle datagrams and reassembled
+        transfers): same form as transfers(); link = -1 - (index of the last datagram). '''
+        from . import udpcl_machine as um
+        out = []
+        by_addr = dict((h.address, h.index) for h in self.hosts.values())
+        parts = {}
+        for num, dgram in enumerate(simudp.NET.sent_log):
+            src, dst = by_addr.get(dgram['src'][0]), by_addr.get(dgram['dst'][0])
+            kind = um.parse_segment(dgram['data'])
+            if kind[0] == 'bundle':
+                out.append(dict(src=src, dst=dst, link=-1 - num, data=kind[1], complete=True, id=None))
+            elif kind[0] == 'segment':
+                _k, xid, total, offset, chunk = kind
+                ent = parts.setdefault((src, dst, xid, total), {})
+                if offset in ent:
+                    # the same segment sent again: a second transmission of the transfer starts
+                    if len(ent) and sum(len(c) for c in ent.values()) >= total:
+                        out.append(dict(src=src, dst=dst, link=-1 - num, data=b''.join(ent[o] for o in sorted(ent)), complete=True, id=xid))
+                    ent.clear()
+                ent[offset] = chunk
+        for (src, dst, xid, total), ent in parts.items():
+            data = b''.join(ent[o] for o in sorted(ent))
+            out.append(dict(src=src, dst=dst, link=-1, data=data, complete=len(data) == total, id=xid))
         return out
 
     def escapes(self):
